@@ -26,9 +26,10 @@ import Driver.HConvert
 import Driver.HWalk
 import Driver.HUnify
 import Driver.HD13
+import Driver.HD06
 open CtyModel
 
-def handlers : List Handler := [handleTy, handleVal, handleNum, handleOps, handleFunc, handleSet, handleSetRules, handleRefine, handleGocty, handleStd, handleStdNum, handleMarks, handleMsgpack, handleJsonVal, handleStdlib, handleWF, handleHeap, handleCovers, handleC12, handleConvert, handleWalk, handleUnify, handleD13]
+def handlers : List Handler := [handleTy, handleVal, handleNum, handleOps, handleFunc, handleSet, handleSetRules, handleRefine, handleGocty, handleStd, handleStdNum, handleMarks, handleMsgpack, handleJsonVal, handleStdlib, handleWF, handleHeap, handleCovers, handleC12, handleConvert, handleWalk, handleUnify, handleD13, handleD06]
 
 def handle (op : String) (args : List Sexp) : String :=
   match handlers.findSome? (fun h => h op args) with
